@@ -21,15 +21,27 @@ pub struct EnumOutcome {
     pub extra: BTreeMap<String, Value>,
 }
 
+/// `--replay` of a case found by an enumeration: the enumeration is run again (seconds) and every violation
+/// raised for exactly this case is printed, whether or not it is among the few witnesses kept per class.
+pub static REPLAY_CASE: std::sync::OnceLock<Vec<String>> = std::sync::OnceLock::new();
+pub static REPLAY_HITS: std::sync::atomic::AtomicU64 = std::sync::atomic::AtomicU64::new(0);
+
 impl EnumOutcome {
     pub fn viol(&mut self, class: impl Into<String>, detail: impl Into<String>, case: Vec<String>) {
         let class = class.into();
+        let detail = detail.into();
+        if let Some(rc) = REPLAY_CASE.get() {
+            if *rc == case {
+                REPLAY_HITS.fetch_add(1, std::sync::atomic::Ordering::Relaxed);
+                println!("  REPLAY-VIOLATION class={} {}", class, detail);
+            }
+        }
         let n = self.viol_counts.entry(class.clone()).or_insert(0);
         *n += 1;
         if *n <= 3 {
             self.viols.push(FoundViol {
                 class,
-                detail: detail.into(),
+                detail,
                 init: "case".into(),
                 depth: case.len(),
                 path: case,
